@@ -1,7 +1,8 @@
 ---------------------------- MODULE MC_Schedule ----------------------------
 (* model-checking / emitting instances of Schedule.tla.
    EmitA prints every COMPLETE configuration script (kind, template, the order of the calls) with the final
-   configuration record the specification predicts; EmitB prints every complete schedule of one map call (event
+   configuration record the specification predicts (drew: the generator moved after the [Seed; Init] unit / the
+   pre-steps; quiet: no cost evaluation and no counter change during the calls); EmitB prints every complete schedule of one map call (event
    sequence i = start of item i, -i = completion of item i, and the completion order).  harness/check_C07.py
    executes them on the real solvers / under maps that enforce exactly these schedules. *)
 EXTENDS Schedule, Json
@@ -14,12 +15,13 @@ K1 == {1}
 K12 == {1, 2}
 Both == {"solve", "step"}
 
-PoolQ == {1, 3, 4, 5, 6, 7, 11, 12, 13}        \* quick: 8 call kinds (+ SetMapper for DE2)
+PoolQ == {3, 4, 5, 6, 7, 11, 12, 13, 15}       \* quick: 8 call kinds (+ SetMapper for DE2)
 Pool5 == {2, 5, 6, 9, 12}                      \* the 5-set whose 120 orders are all executed
 Pool5d == {3, 4, 6, 8, 11}                     \* a 5-set with the drawing call (tight=True)
 Pool6 == {1, 4, 5, 6, 7, 12}                   \* the 6-set whose 720 orders are all executed
 Pool6b == {3, 16, 5, 10, 9, 11}
 Pool12 == {1, 3, 4, 5, 6, 7, 8, 10, 11, 12, 13, 14, 15}   \* thorough: every 4-subset is emitted
+Pool8b == {2, 3, 6, 9, 11, 14, 16, 17}          \* thorough: the remaining call variants (new=True monitor, collapse termination, clip)
 PoolT == {1, 2, 3, 4, 5, 6, 7, 8, 9, 10, 11, 12, 13, 14, 15, 16, 17}
 PoolW == {1, 3, 4, 5, 6, 7, 8, 15, 17}            \* witnesses: every slot a refuted design touches is present
 
@@ -33,7 +35,9 @@ P0 == {0}
 P01 == {0, 1}
 
 EmitA == CompleteA => PrintT(<<"@@", ToJson([kind |-> a.kind, pre |-> a.pre, at |-> a.initAt, order |-> a.hist,
-                                             final |-> a.c])>>)
+                                             final |-> a.c,
+                                             drew |-> a.c.rng # (IF a.pre = 1 THEN C0(a.kind, 1).rng ELSE PopDraws),
+                                             quiet |-> (a.c.evals = C0(a.kind, a.pre).evals /\ a.c.fcalls = C0(a.kind, a.pre).fcalls)])>>)
 EmitB == (m.pc = "map" /\ AllDone) => PrintT(<<"@@", ToJson([n |-> N, ev |-> m.ev, order |-> m.order])>>)
 HeaderA == PrintT(<<"@@", ToJson([calltab |-> CallTab])>>)
 =============================================================================
